@@ -256,6 +256,17 @@ def ovcases(draw):
     return dict(ns=ns, nf=nf, seed=seed, n1=n1, n2=n2, relation=relation, fill=fill, slack=slack, spread=spread)
 
 
+@st.composite
+def ovbigcases(draw):
+    """two or three labels on frames of 70 000 .. 200 000 pixels: a pair of labels shares more pixels than a 16 bit
+    count holds"""
+    ns = draw(st.integers(257, 420))
+    nf = draw(st.integers(280, 480))
+    return dict(ns=ns, nf=nf, seed=draw(st.integers(0, 2 ** 31 - 1)), n1=draw(st.integers(1, 2)),
+                n2=draw(st.integers(1, 2)), relation=draw(st.sampled_from(["random", "identical", "shifted"])),
+                fill=draw(st.sampled_from([0.97, 1.0])), slack=0, spread="none")
+
+
 def build_ov(case):
     rng = np.random.RandomState(case["seed"] % (2 ** 32))
     shape = (case["ns"], case["nf"])
@@ -549,10 +560,11 @@ def run_shard(rec):
                   lambda c: check_rt(c, rec))
     hyp_run(rec, "roundtrip", rtcases(), lambda c: check_rt(c, rec), max_examples=1000 if quick else 8000)
     hyp_run(rec, "overlaps", ovcases(), lambda c: check_ov(c, rec), max_examples=1000 if quick else 8000)
+    hyp_run(rec, "overlaps_big", ovbigcases(), lambda c: check_ov(c, rec), max_examples=4 if quick else 30)
     hyp_run(rec, "scan", scancases(), lambda c: check_scan(c, rec), max_examples=60 if quick else 600)
 
 
 def replay(sub, case, rec):
     if sub == "scan":
         return check_scan(case, rec)
-    return check_ov(case, rec) if sub == "overlaps" else check_rt(case, rec)
+    return check_ov(case, rec) if sub in ("overlaps", "overlaps_big") else check_rt(case, rec)
